@@ -47,8 +47,24 @@ None == [none |-> TRUE]
 -----------------------------------------------------------------------------
 (* net *)
 
+\* the first network of the table with the same identifier bytes
+B58Like(name) ==
+    LET n == NetOf(name)
+        i == CHOOSE i \in 1..Len(NetTable) :
+                /\ NetTable[i].pkh = n.pkh /\ NetTable[i].sh = n.sh
+                /\ \A j \in 1..(i - 1) : ~(NetTable[j].pkh = n.pkh /\ NetTable[j].sh = n.sh)
+    IN  NetTable[i].name
+B58Nets == {nn \in NetNames : B58Like(nn) = nn}
+
 NetExpect(n) ==
-    [ segprefix |-> n.hrp \in RegHrps, pkhid |-> n.pkh \in RegPkhIds, shid |-> n.sh \in RegShIds,
+    [ segprefix |-> n.hrp \in RegHrps,
+      \* implementation layer of the prefix registry, per prefix
+      implsegprefix |-> n.hrp \in ImplRegHrps, impldecodable |-> ImplDecodable(n.hrp),
+      hrpnets |-> NetsWithHrp(n.hrp), implhrpnets |-> ImplNetsWithHrp(n.hrp),
+      \* the default-network rows of the Base58Check and hex key tables are written
+      \* for the first network with these identifier bytes
+      b58like |-> B58Like(n.name),
+      pkhid |-> n.pkh \in RegPkhIds, shid |-> n.sh \in RegShIds,
       hdpubof |-> HdPubOf(n.hdpriv),
       \* identifiers nobody registered
       otherpkh |-> 200 \in RegPkhIds, othersh |-> 201 \in RegShIds,
@@ -92,7 +108,8 @@ BechNgs  == 0..67
 \* the upper-case rows decide like the lower-case ones (BechLaws checks it on every
 \* row); the quick tier keeps the lower-case rows only
 BechCases == IF Thorough THEN {"lower", "upper"} ELSE {"lower"}
-PadChoices(ng) == IF LeftOver(ng) \in 1..4 THEN BOOLEAN ELSE {TRUE}
+\* left-over bits: all zero or not - also when there are five or more of them
+PadChoices(ng) == IF LeftOver(ng) >= 1 THEN BOOLEAN ELSE {TRUE}
 AnchorChoices(ng) == IF ProgLen(ng) = 2 THEN BOOLEAN ELSE {FALSE}
 
 \* the abstract string an encoder produces for a segwit address
@@ -133,6 +150,12 @@ BechLaws ==
                     /\ ~ImplBech([s EXCEPT !.ng = g, !.padzero = pz]).accept)
             \* implementation layer = property layer (no recorded defect shape is left)
             /\ expect.impl = d
+            \* ... and the code's answer for a prefix is this row's, or a refusal when its
+            \* registry never matches the prefix
+            /\ \A h \in RegHrps :
+                  ImplBech([s EXCEPT !.hrp = h]) =
+                     (IF ~ImplDecodable(h) \/ ~d.accept THEN Reject
+                      ELSE [d EXCEPT !.hrp = h, !.fornets = ImplNetsWithHrp(h)])
             \* the table is written for one prefix: the prefix only names the networks
             /\ \A h \in RegHrps :
                   LET dh == DecideBech([s EXCEPT !.hrp = h])
@@ -171,6 +194,8 @@ B58Laws ==
             \* one string never decodes to two different kinds under two default networks
             /\ \A dn2 \in NetNames : LET d2 == DecideB58(s, dn2)
                                      IN  d.accept /\ d2.accept => d2.kind = d.kind /\ d2.fornets = d.fornets
+            \* the row stands for every default network with the same identifier bytes
+            /\ \A nn \in NetNames : B58Like(nn) = case.dn => DecideB58(s, nn) = d /\ ImplB58(s, nn) = expect.impl
             \* only 20-byte payloads are addresses, whatever the rest says
             /\ s.plen = 19 => \A l \in 0..80 : l # 20 =>
                     /\ ~DecideB58([s EXCEPT !.plen = l], case.dn).accept
@@ -189,6 +214,7 @@ PkHexLaws ==
                            /\ (s.nchars = 66 <=> s.prefix \in {2, 3})
                            /\ (d.format = "compressed" <=> s.nchars = 66)
                            /\ case.dn \in d.fornets
+            /\ \A nn \in NetNames : B58Like(nn) = case.dn => DecidePkHex(s, nn) = d
 
 -----------------------------------------------------------------------------
 (* vec32: concrete strings through the BIP173 arithmetic *)
@@ -254,7 +280,7 @@ Vec32Laws ==
             /\ VariantOf(h, d \o Checksum(h, d, ConstB32M)) = "b32m"
             /\ expect.good # expect.wrong
             \* the checksum covers the prefix: under any other prefix it fails
-            /\ (case.pattern = "count" =>
+            /\ (case.pattern = "count" /\ case.hrp \in {"bc", "l1x", "k"} =>
                   \A h2 \in AllHrps \ {case.hrp} :
                       VariantOf(HrpCodes(h2), d \o Checksum(h, d, ConstFor(case.ver))) = "bad")
             \* wrong variant is never accepted
@@ -306,9 +332,11 @@ AddrExpect(kind, n) ==
     LET a  == AddrString(kind, n)
         sc == Template(kind)
     IN  [ str |-> a, decision |-> DecideAbs(a, n.name), encodedkind |-> EncodedKind(kind),
+          implfornets |-> IF a.form = "bech" THEN ImplNetsWithHrp(n.hrp)
+                          ELSE IF kind = "p2sh" THEN NetsWithSh(n.sh) ELSE NetsWithPkh(n.pkh),
           fornets |-> IF a.form = "bech" THEN NetsWithHrp(n.hrp)
                       ELSE IF kind = "p2sh" THEN NetsWithSh(n.sh) ELSE NetsWithPkh(n.pkh),
-          script |-> sc, class |-> Classify(sc), extract |-> Extract(sc),
+          script |-> sc, witprog |-> WitProgOf(sc), class |-> Classify(sc), extract |-> Extract(sc),
           pkscript |-> PkScriptSupported(Classify(sc)),
           \* the address the script maps back to
           back |-> IF kind = "p2pk-h" THEN "p2pk-u" ELSE kind ]
@@ -356,14 +384,21 @@ Mutations(kind) ==
                                             dd \in {"pkh6", "pkh7", "pku-off", "rand"}} ELSE {})
         \cup (IF kind = "p2a" THEN {[m |-> "other-program", sc |-> ReplaceAt(sc, pi, [p EXCEPT !.data = "rand"])]} ELSE {})
 
-WitLens == IF Thorough THEN 1..42 ELSE {1, 2, 3, 19, 20, 21, 31, 32, 33, 40, 41}
+WitLens == IF Thorough THEN 1..42 ELSE {1, 2, 3, 19, 20, 21, 31, 32, 33, 39, 40, 41}
 WitScript(ver, plen, data) == <<Op(SmallInt(ver)), Push(plen, data)>>
 
 ScriptExpect(sc) ==
-    [class |-> Classify(sc), extract |-> Extract(sc), pkscript |-> PkScriptSupported(Classify(sc))]
+    [witprog |-> WitProgOf(sc), class |-> Classify(sc), extract |-> Extract(sc), pkscript |-> PkScriptSupported(Classify(sc))]
 
 ScriptLaws ==
     case.kind = "script" =>
+        \* the segwit classes are witness programs of the right version and length, the
+        \* others are none; a witness program of no class is nonstandard
+        /\ (expect.class \in {"witness_v0_keyhash", "witness_v0_scripthash", "witness_v1_taproot", "anchor"} => expect.witprog.is)
+        /\ (expect.class \in {"pubkey", "pubkeyhash", "scripthash"} => ~expect.witprog.is)
+        /\ (expect.class = "witness_v0_keyhash" => expect.witprog.ver = 0 /\ expect.witprog.plen = 20)
+        /\ (expect.class = "witness_v1_taproot" => expect.witprog.ver = 1 /\ expect.witprog.plen = 32)
+        /\ (case.of = "witprog" => (expect.witprog.is <=> case.sc[2].via = "direct" /\ case.sc[2].n \in 2..40))
         /\ expect.extract.class = expect.class
         /\ (expect.class = "nonstandard" => expect.extract.addrs = <<>> /\ ~expect.pkscript)
         \* a recognised script is exactly the template of the address it yields
@@ -619,7 +654,8 @@ Group == /\ case.kind = "root"
          /\ \/ G("net", 0) \/ G("spend", 0) \/ G("wifobj", 0) \/ G("hdvec", 0)
             \/ \E v \in BechVers : G("bech", <<TableHrp, v>>)
             \/ G("bechdefect", TableHrp)
-            \/ \E dn \in NetNames : G("b58", dn) \/ G("pkhex", dn) \/ G("addr", dn)
+            \/ \E dn \in B58Nets : G("b58", dn) \/ G("pkhex", dn)
+            \/ \E dn \in NetNames : G("addr", dn)
             \/ \E h \in AllHrps, v \in 0..16 : G("vec32", <<h, v>>)
             \/ \E z \in 0..3 : G("vec58", z)
             \/ \E b \in EditBases : G("edit", b)
@@ -692,7 +728,7 @@ PickVec58 ==
 
 PickEdit ==
     /\ InGroup("edit")
-    /\ \E nn \in NetNames \ {"unreg", "collide"}, k \in 1..4, ty \in EditTypes : \E rg \in EditRegions(case.g) :
+    /\ \E nn \in NetNames \ {"unreg", "collide", "hrpdigit", "hrpone", "hrpupper"}, k \in 1..4, ty \in EditTypes : \E rg \in EditRegions(case.g) :
           /\ case' = [kind |-> "edit", base |-> case.g, net |-> nn, k |-> k, type |-> ty, region |-> rg]
           /\ expect' = EditExpect(case.g, NetOf(nn), k, ty, rg)
 
@@ -709,9 +745,11 @@ PickScript ==
 
 PickWitProg ==
     /\ InGroup("witprog")
-    /\ \E l \in WitLens, dd \in {"rand", "anchor"} :
+    /\ \E l \in WitLens, dd \in {"rand", "anchor"}, via \in {"direct", "pushdata1"} :
           /\ (dd = "anchor" => l = 2)
-          /\ LET sc == WitScript(case.g, l, dd)
+          /\ (via = "pushdata1" => dd = "rand" /\ l \in {2, 20, 32, 39, 40})
+          /\ LET sc0 == WitScript(case.g, l, dd)
+                 sc == [sc0 EXCEPT ![2].via = via]
              IN  case' = [kind |-> "script", of |-> "witprog", m |-> "grid", sc |-> sc] /\ expect' = ScriptExpect(sc)
 
 PickSpend ==
